@@ -184,7 +184,11 @@ def build(case, G=None):
         cls = GM.GlobalLagrangeGrid if case["family"] == "lagrange" else GM.GlobalBSplineGrid
         if G is None:
             G = cls(np.array(a), np.array(b), boundary=case["boundary"], modified_basis=case["modified"], p=p)
-        pts = [grid_from_levels(a[i], b[i], case["levels"][i]) for i in range(d)]
+        if case.get("rel_points"):
+            # explicit point positions (relative to the domain): the same points may carry different levels after a rebalancing rotation
+            pts = [[a[i] + (b[i] - a[i]) * t for t in case["rel_points"][i]] for i in range(d)]
+        else:
+            pts = [grid_from_levels(a[i], b[i], case["levels"][i]) for i in range(d)]
         G.set_grid([list(x) for x in pts], [list(l) for l in case["levels"]])
         lv = [max(l) for l in case["levels"]]
         cg = ComponentGridInfo(lv, 1)
@@ -516,6 +520,13 @@ def sequence_cases(ctx, quick):
                 for shared in (True, False):
                     yield dict(g, d=1, domain=rng.choice(("unit", "box")), outlen=2, shared_function=shared, seed=rng.randrange(10 ** 6),
                                steps=[{"levels": [t]} for t in tree_seq])
+                if boundary and p <= 3:
+                    # the SAME point set with two different level assignments (what a rebalancing rotation of the dimension-wise strategy produces): bisection
+                    # tree towards the left end, then the rotated tree with the root at the former level-2 point, then the first one again (missed seed C10_8:
+                    # collocation matrices cached by the coordinates alone)
+                    rp = [0.0, 0.125, 0.25, 0.5, 1.0]
+                    yield dict(g, d=1, domain="unit", outlen=3, shared_function=False, seed=rng.randrange(10 ** 6),
+                               steps=[{"levels": [[0, 3, 2, 1, 0]], "rel_points": [rp]}, {"levels": [[0, 2, 1, 2, 0]], "rel_points": [rp]}, {"levels": [[0, 3, 2, 1, 0]], "rel_points": [rp]}])
                 if not quick or p in (1, 3):
                     other = [[0, 2, 1, 0], [0, 1, 2, 0], [0, 1, 0]]
                     yield dict(g, d=2, domain="box", outlen=1, shared_function=True, seed=rng.randrange(10 ** 6),
